@@ -373,8 +373,16 @@ def execute(sc):
 
     with seams(sc.get("seed", 0) & 0xFFFFFFFF):
         # ---- build ---------------------------------------------------------------
-        flows = [M.build_flow(s) for s in sc["flows"]]
-        states0 = [f.get_state() for f in flows]
+        try:
+            flows = [M.build_flow(s) for s in sc["flows"]]
+            states0 = [f.get_state() for f in flows]
+        except Exception as e:
+            # every attribute value the model assigns is one mitmproxy itself stores in that attribute (see the model):
+            # a flow that cannot even be turned into its state cannot be saved
+            viol("write_failed", {"exc": type(e).__name__, "type": "*", "phase": "get_state"},
+                 f"building a flow / taking its state raised {type(e).__name__}: {e} @ {_where(e)}")
+            return {"violations": violations, "digest": digest([("build_failed", type(e).__name__)]),
+                    "nontrivial": True, "faults": faults_fired, "probes": probes, "sim_s": 0.0}
         views0 = [M.attr_view(f) for f in flows]
         for s, f in zip(sc["flows"], flows):
             probe("type_" + s["kind"])
